@@ -3,15 +3,16 @@ import regcommon as rc
 import vlib
 
 STRICT = {'K1_DeclaredTypeGoverns': False, 'F12_PushBlobUncoded': False}
-STACKS_Q = 'http(mem);debug(http(debug(mem)));http:omitdigest+nolink+page2(http(mem));http:nosingle+page1+max3(mem)'
+STACKS_Q = 'http(mem);http(small:2(mem));debug(http(debug(mem)));http:omitdigest+nolink+page2(http(mem));http:nosingle+page1+max3(mem)'
 STACKS_T = STACKS_Q + ';http:page3+nolink(mem);http:omitdigest(mem);http(debug(http:nosingle(mem)));http:page2+max2(http:page1(mem))'
 
 
 def run(ctx):
     quick = ctx.tier == 'quick'
     vlib.model_check(ctx, 'OciRegistryMC.tla', 'OciRegistryMC_quick.cfg', what='reference model behind the wire')
-    rc.reg_check(ctx, STACKS_Q if quick else STACKS_T, STRICT, n_tlc=12 if quick else 300, n_rand=40 if quick else 1200,
-                 tlc_cfg='OciRegistryGenNoUp.cfg', honest=True, label='client/server stacks vs OciRegistry')
+    rc.reg_check(ctx, STACKS_Q if quick else STACKS_T, STRICT, n_tlc=10 if quick else 300, n_rand=30 if quick else 1200,
+                 cover='OciRegistryCover_all.cfg', cover_sample=250 if quick else 12000, uploads=40 if quick else 800,
+                 profiles=('all', 'range'), tlc_cfg='OciRegistryGenNoUp.cfg', honest=True, label='client/server stacks vs OciRegistry')
     ctx.assumptions += ['well-formed names only (C06/C17 cover the rest)', 'a caller that drives uploads as the BlobWriter contract says (C04 covers wrong offsets)',
                         'HEAD-based resolves: status class only; mount size may be 0; a lying descriptor size over HTTP only has to fail',
                         'harness digest/JSON rendering; TLC + community modules']
